@@ -2,7 +2,7 @@
    Partial: the semantics of each instruction is the mini-ISA of Machine/State.v (transcribed
    from the manuals); the real CPU is replaced by the software CPU in the correspondence. *)
 From X86 Require Import Base.Word Base.Bits Addr.Model Addr.Canon Paging.Entry Paging.EntryProofs
-  Machine.Wrappers Machine.Proofs Machine.Proofs2 Machine.AsmPins.
+  Machine.Wrappers Machine.Proofs Machine.Proofs2 Machine.AsmPins Machine.AsmPinsC16.
 Open Scope Z_scope.
 
 (* Cr0 / Cr4 / Efer are the typed scheme over CR0 / CR4 / MSR C000_0080 *)
@@ -196,3 +196,10 @@ Print Assumptions C16_swapgs_and_tss.
 Theorem C16_asm_blocks_as_modelled : pins_C16 = true.
 Proof. exact pins_C16_ok. Qed.
 Print Assumptions C16_asm_blocks_as_modelled.
+
+(* every asm! block in this property's domain is, in the current source, exactly the block the
+   model was written against: template, operand bindings and the complete option list; and no
+   block of the crate is `pure`, `nostack` around a push/pop, or `nomem` with a memory operand *)
+Theorem C16_asm_blocks_exact : pins_C16_exact = true.
+Proof. exact pins_C16_exact_ok. Qed.
+Print Assumptions C16_asm_blocks_exact.
